@@ -5,7 +5,11 @@ Abstract program ("world"): a chain of generic classes (attrs / dataclass / Type
 in another order than they appear `R[X, Y] = dict[Y, X]`, an unused parameter `Q[X, Y] = list[Y]` --, a nested generic
 `In[T]`, a class that is merely *called* `T`; any level may additionally list a plain non-generic mixin base before or
 after its parametrised base (multiple inheritance); attrs fields may carry a tagging / identity field converter; keys
-of TypedDicts may be `NotRequired`), a target (`G[args]` or the bare class) and two argument tuples.  The world is realised by
+of TypedDicts may be `NotRequired`; PLAIN subclasses -- `class Leaf(IntNode)` below `class IntNode(Node[NT])`: no
+`__orig_bases__` of their own, the binding is inherited by attribute lookup -- at the head of the chain or below a class
+that adds a parameter, `class Tagged(Leaf, Generic[W])`; PEP 696 defaults including `None`; among the arguments a
+`NewType` `NT` for which EVERY converter of the check has registered hooks, so that a field dispatched by run-time class
+instead of by its declared type shows), a target (`G[args]` or the bare class) and two argument tuples.  The world is realised by
 `exec` of generated source; the non-generic monomorphised copy is generated from the same description by substituting
 the arguments (harness-side substitution, written from the property statement, independent of the Lean model).
 
@@ -24,6 +28,10 @@ Correspondence (model vs implementation, pure functions, compared directly):
   corr:C17:ALIAS    type handed on by `type_alias_structure_factory` == model `aliasResolve` (aliases with 1-3 parameters,
                     declared in any order, used any number of times or not at all; theorem `C17_alias`)
   corr:C17:MANGLE   `__name__` of the generated structure hook     == model `mangle`
+A plain level is presented to the model merged into its parent (for every function of the model it IS the parent class
+with more fields: `__orig_bases__` and `__parameters__` are the parent's); worlds with a class that lists an
+unsubscripted generic class among the bases of a class statement that has `__orig_bases__` of its own (`Tagged` above) are
+outside the model: oracle only (`unmodelled-world`).
 Recorded findings F27-F29 are recognised by the *shape of the input* (predicates below); their Lean negative witnesses
 are replayed on the real code in every run.  F40 (recursive TypedDicts: the outcome depended on the call-stack depth,
 see `DepthScan`; found by this check, repaired in /repo) is not about generics: the oracle compares depth-stable
@@ -276,6 +284,7 @@ def _kid(v):
     return v
 """
 
+
 CONVERTERS = {"tag": "_ktag", "id": "_kid"}
 
 BUILTIN_LEAVES = {"int": "int", "str": "str", "float": "float", "bool": "bool", "None": "None", "...": "..."}
@@ -349,7 +358,8 @@ class World:
         sfx = self.sfx
         kind = spec["kind"]
         self.names = {}
-        lines = [PRELUDE]
+        self.names["NT"] = "NT" + sfx
+        lines = [PRELUDE, "NT%s = NewType('NT%s', int)" % (sfx, sfx)]
         # type variables
         tv_names = set()
         for lv in spec["levels"]:
@@ -473,6 +483,24 @@ class World:
             return ["lf", self.unname(t.__name__)]
         return ["lf", repr(t)]
 
+    def converter(self, detailed=True):
+        """every converter of the check: hooks for the NewType `NT` registered -- a field typed `NT` (after substitution)
+        that is dispatched by the run-time class of its value (`int`) instead gives a different result"""
+        c = Converter(detailed_validation=detailed)
+        nt = self.ns[self.names["NT"]]
+        c.register_structure_hook(nt, lambda v, _: int(v) + 1000)
+        c.register_unstructure_hook(nt, lambda v: {"nt": v})
+        return c
+
+    def modelled(self):
+        """False if some class statement with `__orig_bases__` of its own lists an unsubscripted class that inherits a
+        binding (`class Tagged(Leaf, Generic[W])`): `generate_mapping(Leaf)` is then applied to a BARE class in the loop
+        of `make_dict_structure_fn`, which the model does not describe"""
+        lv = self.spec["levels"]
+        if self.spec["kind"] == "typeddict" and shape_unsubscripted_base(self.spec):
+            return False   # (F63: TypedDicts do not inherit `__orig_bases__`; the merge of plain levels does not describe them)
+        return not any(lv[i]["params"] and not lv[i]["base_args"] and len(lv) > i + 2 for i in range(len(lv) - 1))
+
     def unname(self, n):
         return n[:-len(self.sfx)] if n.endswith(self.sfx) else n
 
@@ -488,9 +516,14 @@ class World:
         mx = lv.get("mixin")
         return (list(mx["fields"]) if mx else []) + list(lv["own"])
 
+    def model_levels(self):
+        """the chain as the model sees it: mixin fields lead the own fields of their level; plain levels merged"""
+        return collapse_plain([dict(lv, own=self.model_own(lv), mixin=(dict(lv["mixin"], fields=[]) if lv.get("mixin") else None))
+                               for lv in self.spec["levels"]])
+
     def chain_sx(self):
         out = []
-        for lv in self.spec["levels"]:
+        for lv in self.model_levels():
             mx = lv.get("mixin")
             # non-generic entries of __orig_bases__ before / after the parametrised base
             plain = " %d %d" % (mx["pos"] == "before", mx["pos"] == "after") if mx else ""
@@ -559,7 +592,9 @@ def gen_closed_arg(rng, depth=1):
     if r < 0.5 or depth <= 0:
         return LF(rng.choice(SCALARS))
     r = rng.random()
-    if r < 0.15:
+    if r < 0.12:
+        return LF("NT")   # a NewType with registered hooks: declared-type dispatch != run-time dispatch
+    if r < 0.2:
         return APP("list", gen_closed_arg(rng, depth - 1))
     if r < 0.3:
         return APP("dict", LF("str"), gen_closed_arg(rng, depth - 1))
@@ -626,7 +661,7 @@ def occurrence(rng, v, allow_self=False, pep604_bad=False):
 SHAPES = [
     # (name, weight)
     ("single", 40), ("inherit-closed", 12), ("inherit-pass", 10), ("inherit-mixed", 12), ("chain3-pass", 6),
-    ("defaults", 6), ("self-nongeneric", 4),
+    ("defaults", 6), ("self-nongeneric", 4), ("plain-sub", 6), ("generic-over-plain", 6),
     ("F27-pep604", 5), ("F28-renamed", 3), ("F28-capture", 2), ("F28-composed", 2), ("F28-deep", 2), ("F29-self", 4),
 ]
 
@@ -686,9 +721,12 @@ def gen_spec(rng, shape=None):
         levels = [level("G", P, own)]
     elif shape == "defaults":
         own, occ = fields(P, n=nparams + 1)
-        dfl = {P[-1]: LF(rng.choice(SCALARS))}
+        # `TypeVar(default=None)` IS a default.  (Not for TypedDicts: `typing` turns a key annotated `None` into `NoneType`,
+        # for which cattrs has no structure hook -- the non-generic copy fails where the generic class works)
+        dchoice = SCALARS + (["NT"] if kind == "typeddict" else ["None", "None", "NT"])
+        dfl = {P[-1]: LF(rng.choice(dchoice))}
         if rng.random() < 0.4:
-            dfl = {p: LF(rng.choice(SCALARS)) for p in P}
+            dfl = {p: LF(rng.choice(dchoice)) for p in P}
         levels = [level("G", P, own, defaults=dfl)]
         if len(dfl) == len(P) and rng.random() < 0.6:
             target = "bare"
@@ -698,6 +736,22 @@ def gen_spec(rng, shape=None):
         occ += occ2 + ["inherited-closed"]
         levels = [level("C", [], cown, [gen_closed_arg(rng) for _ in P], generic_base=False), level("B", P, bown)]
         target = "bare"
+    elif shape in ("plain-sub", "generic-over-plain"):
+        # Node(Generic[P]) <- Mid(Node[closed args]) <- 1-2 plain subclasses [<- Tagged(<plain>, Generic[W])]
+        bown, occ = fields(P)
+        mown, occ2 = fields([], n=rng.randint(0, 2))
+        levels = [level("Mid", [], mown, [gen_closed_arg(rng) for _ in P], generic_base=False), level("B", P, bown)]
+        for k in range(rng.choice([1, 1, 2])):
+            pown, _ = fields([], n=rng.randint(0, 1) or (1 if rng.random() < 0.5 else 0))
+            levels.insert(0, level("Leaf%d" % k, [], pown, [], generic_base=False))
+        occ += occ2 + ["plain-subclass"]
+        target = "bare"
+        if shape == "generic-over-plain":
+            gown, occ3 = fields(["W"])
+            levels.insert(0, level("G", ["W"], gown, []))
+            occ += occ3 + ["generic-over-plain"]
+            P = ["W"]
+            target = "alias"
     elif shape == "inherit-pass":
         bown, occ = fields(P)
         cown, occ2 = fields(P)
@@ -783,7 +837,7 @@ def payload(rng, a, W, depth=0, self_fields=None, none_ok=True, minimal=False):
     rec = lambda x, d: payload(rng, x, W, d, self_fields, none_ok, minimal)  # noqa: E731
     if k == "lf":
         n = a[1]
-        if n == "int":
+        if n in ("int", "NT"):
             return rng.choice([rng.randint(-9, 99), str(rng.randint(0, 50)), rng.randint(0, 5)])
         if n == "str":
             return rng.choice(["a", "bc", str(rng.randint(0, 9)), rng.randint(0, 9)])
@@ -988,11 +1042,31 @@ def shape_pep604(spec):
     return False
 
 
+def is_plain_level(levels, i):
+    """level i is a plain subclass: no parameters, parent (without parameters) listed unsubscripted -> no
+    `__orig_bases__` of its own, the parent's are found by attribute lookup"""
+    return i + 1 < len(levels) and not levels[i]["params"] and not levels[i]["base_args"] and not levels[i + 1]["params"]
+
+
+def collapse_plain(levels):
+    """merge every plain level into its parent: the parent's parameters, defaults, base arguments, `Generic[...]` flag
+    and mixin positions; the child's name, and its fields after the parent's"""
+    levels = [dict(lv) for lv in levels]
+    plain = [is_plain_level(levels, i) for i in range(len(levels))]
+    i = len(levels) - 2
+    while i >= 0:
+        if plain[i]:
+            child, parent = levels[i], levels[i + 1]
+            levels[i:i + 2] = [dict(parent, name=child["name"], own=list(parent["own"]) + list(child["own"]))]
+        i -= 1
+    return levels
+
+
 def shape_base_binding(spec):
     """the class has a parametrised base whose arguments mention a TypeVar other than by same-name pass-through, or a
     closed argument bound to a base parameter named like one of the class's own, or a chain deeper than one level in
     which a level >= 1 binds anything but the same-named variable"""
-    lv = spec["levels"]
+    lv = collapse_plain(spec["levels"])
     if len(lv) < 2:
         return False
     own = set(lv[0]["params"])
@@ -1074,6 +1148,25 @@ def _f51(case):
     refusal probe of the bare class whose head hands a parameter on to its base."""
     return (case.get("op") == "refusal" and case.get("unbound") == "bare" and bool(case.get("spec"))
             and shape_passthrough(case["spec"]))
+
+
+F63_SIG = "c17_typeddict_subclass_does_not_inherit_base_binding"
+
+
+def shape_unsubscripted_base(spec):
+    """some class lists its parent unsubscripted: a plain subclass (`class Leaf(IntNode)`) or a class that only adds
+    a parameter (`class Tagged(Leaf, Generic[W])`), above a class that binds a parameter of ITS base"""
+    lv = spec["levels"]
+    return any(not lv[i]["base_args"] and len(lv) > i + 2 for i in range(len(lv) - 1))
+
+
+@framework.finding(F63_SIG)
+def _f63(case):
+    """F63: every TypedDict class gets `__orig_bases__` of its own (its literal bases), so a TypedDict that lists its
+    parent unsubscripted does not see the parent's `Node[NT]`: the inherited binding T -> NT is lost (attrs classes and
+    dataclasses find the parent's `__orig_bases__` by attribute lookup).  Recognised by the shape of the input only:
+    a TypedDict hierarchy with an unsubscripted parent above a class that binds a parameter."""
+    return bool(case.get("spec")) and case["spec"].get("kind") == "typeddict" and shape_unsubscripted_base(case["spec"])
 
 
 def finding_shape(spec):
@@ -1180,7 +1273,10 @@ def eval_world(chk, drv, spec, n_payloads, corr_fail, label=None):
     chain = W.chain_sx()
     td = kind == "typeddict"
     scan = DepthScan(W, td and any(has_self(a) for a in _all_field_anns(spec)))
-    shared = {True: Converter(detailed_validation=True), False: Converter(detailed_validation=False)}
+    shared = {True: W.converter(True), False: W.converter(False)}
+    modelled = W.modelled()
+    if not modelled:
+        chk.note("unmodelled-world")
     first_results = {}
     for ai, args0 in enumerate(spec["argsets"]):
         try:
@@ -1199,14 +1295,14 @@ def eval_world(chk, drv, spec, n_payloads, corr_fail, label=None):
             eff_args = full_args
             tg_sx = "(alias " + " ".join(ann_sx(a) for a in full_args) + ")"
         case0 = {"spec": spec, "args": args0, "label": label, "target_kind": "bare" if args0 is None else "alias"}
-        in_scope = drv.ask("SCOPE %s (%s) %s" % (chain, " ".join(ann_sx(a) for a in eff_args), tg_sx)) == "1" \
+        in_scope = modelled and drv.ask("SCOPE %s (%s) %s" % (chain, " ".join(ann_sx(a) for a in eff_args), tg_sx)) == "1" \
             and all(drv.ask("INSCOPE " + ann_sx(a)) == "1" for a in _all_field_anns(spec))
         if args0 is None and spec["levels"][0]["params"] and not eff_args:
             in_scope = False
         fshape = finding_shape(spec)
         if in_scope and fshape:
             raise lean.InfraError("finding predicate matches an in-scope case: " + json.dumps(spec))
-        if not in_scope and not fshape:
+        if not in_scope and not fshape and modelled:
             chk.note("out-of-scope-without-finding-shape")
         chk.note("scope:" + ("in" if in_scope else "out"))
         Copy, copy_code, mono = W.copy_class(eff_args)
@@ -1214,115 +1310,124 @@ def eval_world(chk, drv, spec, n_payloads, corr_fail, label=None):
         chk.count(key, nontrivial=True,
                   sample={"shape": spec["shape"], "kind": kind, "style": spec["style"], "target": str(tgt), "copy": copy_code})
 
-        # ---------- correspondence: MONO (Lean spec == the oracle's copy)
-        self_spec = LF(spec["levels"][0]["name"]) if not spec["levels"][0]["params"] else APP(spec["levels"][0]["name"], *eff_args)
-        rm = drv.ask("MONO %s (%s) %s" % (chain, " ".join(ann_sx(a) for a in eff_args), ann_sx(self_spec)))
-        mono_model = pairs_of(parse_sx(rm))
-        mono_oracle = W.mono_fields(eff_args, self_to=self_spec)
-        chk.note("corr:MONO")
-        if [[n, a] for n, a in mono_model] != [[n, a] for n, a in mono_oracle]:
-            corr_fail.append(("MONO", dict(case0, op="mono"), json.dumps(mono_oracle), rm))
+        rh = ("err", "unmodelled")
+        if modelled:
+            # ---------- correspondence: MONO (Lean spec == the oracle's copy)
+            self_spec = LF(spec["levels"][0]["name"]) if not spec["levels"][0]["params"] else APP(spec["levels"][0]["name"], *eff_args)
+            rm = drv.ask("MONO %s (%s) %s" % (chain, " ".join(ann_sx(a) for a in eff_args), ann_sx(self_spec)))
+            mono_model = pairs_of(parse_sx(rm))
+            mono_oracle = W.mono_fields(eff_args, self_to=self_spec)
+            chk.note("corr:MONO")
+            if [[n, a] for n, a in mono_model] != [[n, a] for n, a in mono_oracle]:
+                corr_fail.append(("MONO", dict(case0, op="mono"), json.dumps(mono_oracle), rm))
 
-        # ---------- correspondence: GENMAP
-        if is_generic_real(W, args0):
-            ri = attempt(lambda: generate_mapping(tgt))
-            rm = drv.ask("GENMAP %s %s" % (chain, tg_sx))
-            if ri[0] == "ok":
-                real_map = sorted((k, json.dumps(W.canon(v))) for k, v in ri[1].items())
-                model_map = sorted((k, json.dumps(W.canon(W.real(a)))) for k, a in pairs_of(parse_sx(rm)))
-                chk.note("corr:GENMAP")
-                if real_map != model_map:
-                    corr_fail.append(("GENMAP", dict(case0, op="genmap"), repr(real_map), rm))
-            else:
-                corr_fail.append(("GENMAP", dict(case0, op="genmap"), "raised " + ri[1], rm))
-
-        # ---------- correspondence: RESOLVE, on the generator alone (both templates): the types it asks handlers for
-        for det in (True, False):
-            gop = ("STRUCTGENTD" if det else "STRUCTGENTDFAST") if td else "STRUCTGEN"
-            rmg = drv.ask("%s %s %s" % (gop, chain, tg_sx))
-            rs = attempt(lambda: structure_types_real(tgt, td, det))
-            chk.note("corr:RESOLVE-generator")
-            gcase = dict(case0, op="resolve", detailed=det)
-            if rmg == "refused":
-                if rs[0] == "ok":
-                    corr_fail.append(("RESOLVE", gcase, "generator did not refuse", rmg))
-            elif rs[0] != "ok":
-                corr_fail.append(("RESOLVE", gcase, "generator raised " + rs[1], rmg))
-            else:
-                mg = pairs_of(parse_sx(rmg)[1])
-                if td and not det:
-                    # the fast TypedDict template asks for the handlers of the required keys first, then for the others
-                    nr = {fn for lv in spec["levels"] for fn, a in lv["own"] if is_notrequired(a)}
-                    mg = [x for x in mg if x[0] not in nr] + [x for x in mg if x[0] in nr]
-                want_g = [json.dumps(W.canon(W.real(strip_nr(a)))) for _, a in mg]
-                got_g = [json.dumps(W.canon(t)) for t in rs[1]]
-                if want_g != got_g:
-                    corr_fail.append(("RESOLVE", gcase, json.dumps(got_g), rmg))
-
-        # ---------- correspondence: RESOLVE (types bound into the real hook)
-        convd = Converter(detailed_validation=True)
-        rh = scan.attempt(lambda: convd.get_structure_hook(tgt), "get_structure_hook(%s)" % tgt)
-        # (the real hook inspected is the detailed-validation one; for TypedDicts that template rewrites twice)
-        rm = drv.ask("%s %s %s" % ("STRUCTGENTD" if td else "STRUCTGEN", chain, tg_sx))
-        refuses = drv.ask("%s %s %s" % ("REFUSESTD" if td else "REFUSES", chain, tg_sx)) == "1"
-        chk.note("corr:RESOLVE")
-        if rm == "refused":
-            if rh[0] == "ok":
-                corr_fail.append(("RESOLVE", dict(case0, op="resolve"), "hook created", rm))
-        else:
-            model_fields = pairs_of(parse_sx(rm)[1])
-            if rh[0] == "ok":
-                real_t = resolved_types_real(W, rh[1])
-                if real_t:  # a refactor may rename the generated parameters: then this observable is unavailable
-                    names = [fn for fn, _ in model_fields]
-                    for ix, (fn, a) in enumerate(model_fields):
-                        k = str(ix) if td else fn
-                        if k not in real_t:
-                            continue
-                        want = json.dumps(W.canon(W.real(strip_nr(a))))
-                        got = json.dumps(W.canon(real_t[k]))
-                        if want != got:
-                            corr_fail.append(("RESOLVE", dict(case0, op="resolve"), "%s: real=%s model(normalised)=%s" % (fn, got, want), rm))
-                            break
+            # ---------- correspondence: GENMAP
+            if is_generic_real(W, args0):
+                ri = attempt(lambda: generate_mapping(tgt))
+                rm = drv.ask("GENMAP %s %s" % (chain, tg_sx))
+                if ri[0] == "ok":
+                    real_map = sorted((k, json.dumps(W.canon(v))) for k, v in ri[1].items())
+                    model_map = sorted((k, json.dumps(W.canon(W.real(a)))) for k, a in pairs_of(parse_sx(rm)))
+                    chk.note("corr:GENMAP")
+                    if real_map != model_map:
+                        corr_fail.append(("GENMAP", dict(case0, op="genmap"), repr(real_map), rm))
                 else:
-                    chk.note("resolve-observable-unavailable")
-            elif not refuses:
-                # the hook could not be created although the generator itself accepts the class (checked above) and no
-                # type variable is left: a handler for one of the bound types cannot be created.  Inside the theorems'
-                # scope that is a broken correspondence; in a recorded finding's shape it is the finding's consequence
-                # (e.g. F29: `list[Self]` in `G[int]` is bound as `list[G]`, and the bare `G` is refused)
-                if in_scope:
-                    corr_fail.append(("RESOLVE", dict(case0, op="resolve"), "raised " + rh[1], rm))
+                    corr_fail.append(("GENMAP", dict(case0, op="genmap"), "raised " + ri[1], rm))
+
+            # ---------- correspondence: RESOLVE, on the generator alone (both templates): the types it asks handlers for
+            for det in (True, False):
+                gop = ("STRUCTGENTD" if det else "STRUCTGENTDFAST") if td else "STRUCTGEN"
+                rmg = drv.ask("%s %s %s" % (gop, chain, tg_sx))
+                rs = attempt(lambda: structure_types_real(tgt, td, det))
+                chk.note("corr:RESOLVE-generator")
+                gcase = dict(case0, op="resolve", detailed=det)
+                if rmg == "refused":
+                    if rs[0] == "ok":
+                        corr_fail.append(("RESOLVE", gcase, "generator did not refuse", rmg))
+                elif rs[0] != "ok":
+                    corr_fail.append(("RESOLVE", gcase, "generator raised " + rs[1], rmg))
                 else:
-                    chk.note("hook-creation-failed-downstream-of-a-finding-shape")
+                    mg = pairs_of(parse_sx(rmg)[1])
+                    if td and not det:
+                        # the fast TypedDict template asks for the handlers of the required keys first, then for the others
+                        nr = {fn for lv in spec["levels"] for fn, a in lv["own"] if is_notrequired(a)}
+                        mg = [x for x in mg if x[0] not in nr] + [x for x in mg if x[0] in nr]
+                    if not td:
+                        # a field whose (substituted) type is `None` counts as untyped: the attrs / dataclass template asks for no handler
+                        mg = [x for x in mg if x[1] != LF("None")]
+                    want_g = [json.dumps(W.canon(W.real(strip_nr(a)))) for _, a in mg]
+                    got_g = [json.dumps(W.canon(t)) for t in rs[1]]
+                    if want_g != got_g:
+                        corr_fail.append(("RESOLVE", gcase, json.dumps(got_g), rmg))
 
-        # ---------- correspondence: RESOLVEUN (types whose hooks the unstructure generator asks for)
-        ru = attempt(lambda: unstructure_types_real(tgt, td))
-        rmu = parse_sx(drv.ask("UNSTRUCTGEN %s %s" % (chain, tg_sx)))[1]
-        want_u = [json.dumps(W.canon(W.real(strip_nr(ann_of(x[1]))))) for x in rmu if x[1] != "late"]
-        chk.note("corr:RESOLVEUN")
-        if ru[0] != "ok":
-            corr_fail.append(("RESOLVEUN", dict(case0, op="resolve"), "raised " + ru[1], json.dumps(want_u)))
-        else:
-            got_u = [json.dumps(W.canon(t)) for t in ru[1]]
-            if td and rmu and rmu[0][1] != "late":
-                # the TypedDict generator first probes for an all-identity class and stops at the first handler that is not
-                got_u = got_u[1:]
-            if got_u != want_u:
-                corr_fail.append(("RESOLVEUN", dict(case0, op="resolve"), json.dumps(got_u), json.dumps(want_u)))
+            # ---------- correspondence: RESOLVE (types bound into the real hook)
+            convd = W.converter(True)
+            rh = scan.attempt(lambda: convd.get_structure_hook(tgt), "get_structure_hook(%s)" % tgt)
+            # (the real hook inspected is the detailed-validation one; for TypedDicts that template rewrites twice)
+            rm = drv.ask("%s %s %s" % ("STRUCTGENTD" if td else "STRUCTGEN", chain, tg_sx))
+            refuses = drv.ask("%s %s %s" % ("REFUSESTD" if td else "REFUSES", chain, tg_sx)) == "1"
+            chk.note("corr:RESOLVE")
+            if rm == "refused":
+                if rh[0] == "ok":
+                    corr_fail.append(("RESOLVE", dict(case0, op="resolve"), "hook created", rm))
+            else:
+                model_fields = pairs_of(parse_sx(rm)[1])
+                if rh[0] == "ok":
+                    real_t = resolved_types_real(W, rh[1])
+                    if real_t:  # a refactor may rename the generated parameters: then this observable is unavailable
+                        names = [fn for fn, _ in model_fields]
+                        for ix, (fn, a) in enumerate(model_fields):
+                            k = str(ix) if td else fn
+                            if k not in real_t:
+                                continue
+                            want = json.dumps(W.canon(W.real(strip_nr(a))))
+                            got = json.dumps(W.canon(real_t[k]))
+                            if want != got:
+                                corr_fail.append(("RESOLVE", dict(case0, op="resolve"), "%s: real=%s model(normalised)=%s" % (fn, got, want), rm))
+                                break
+                    else:
+                        chk.note("resolve-observable-unavailable")
+                elif not refuses:
+                    # the hook could not be created although the generator itself accepts the class (checked above) and no
+                    # type variable is left: a handler for one of the bound types cannot be created.  Inside the theorems'
+                    # scope that is a broken correspondence; in a recorded finding's shape it is the finding's consequence
+                    # (e.g. F29: `list[Self]` in `G[int]` is bound as `list[G]`, and the bare `G` is refused)
+                    if in_scope and attempt(lambda: W.converter(True).get_structure_hook(Copy))[0] != "ok":
+                        # not about type parameters: the non-generic copy has a field type without a hook, too
+                        # (e.g. `Optional[U]` with U := None is `NoneType`, for which cattrs has no structure hook)
+                        chk.note("hook-creation-fails-for-the-copy-too")
+                    elif in_scope:
+                        corr_fail.append(("RESOLVE", dict(case0, op="resolve"), "raised " + rh[1], rm))
+                    else:
+                        chk.note("hook-creation-failed-downstream-of-a-finding-shape")
 
-        # ---------- correspondence: MANGLE (function name of the generated hook)
-        if rh[0] == "ok" and args0 is not None and kind != "typeddict":
-            m = generate_mapping(tgt) if is_generic_real(W, args0) else {}
-            nm = []
-            for p in W.cls.__parameters__:
-                nb = m.get(p.__name__)
-                nm.append(getattr(nb, "__name__", None) or str(nb))
-            if all(m.get(p.__name__) is not None for p in W.cls.__parameters__) and not fshape:
-                rmn = drv.ask("MANGLE %s (%s)" % (esc(W.cls.__name__), " ".join(esc(x) for x in nm)))
-                chk.note("corr:MANGLE")
-                if parse_sx(rmn)[1] != rh[1].__name__:
-                    corr_fail.append(("MANGLE", dict(case0, op="mangle"), rh[1].__name__, rmn))
+            # ---------- correspondence: RESOLVEUN (types whose hooks the unstructure generator asks for)
+            ru = attempt(lambda: unstructure_types_real(tgt, td))
+            rmu = parse_sx(drv.ask("UNSTRUCTGEN %s %s" % (chain, tg_sx)))[1]
+            want_u = [json.dumps(W.canon(W.real(strip_nr(ann_of(x[1]))))) for x in rmu if x[1] != "late"]
+            chk.note("corr:RESOLVEUN")
+            if ru[0] != "ok":
+                corr_fail.append(("RESOLVEUN", dict(case0, op="resolve"), "raised " + ru[1], json.dumps(want_u)))
+            else:
+                got_u = [json.dumps(W.canon(t)) for t in ru[1]]
+                if td and rmu and rmu[0][1] != "late":
+                    # the TypedDict generator first probes for an all-identity class and stops at the first handler that is not
+                    got_u = got_u[1:]
+                if got_u != want_u:
+                    corr_fail.append(("RESOLVEUN", dict(case0, op="resolve"), json.dumps(got_u), json.dumps(want_u)))
+
+            # ---------- correspondence: MANGLE (function name of the generated hook)
+            if rh[0] == "ok" and args0 is not None and kind != "typeddict":
+                m = generate_mapping(tgt) if is_generic_real(W, args0) else {}
+                nm = []
+                for p in W.cls.__parameters__:
+                    nb = m.get(p.__name__)
+                    nm.append(getattr(nb, "__name__", None) or str(nb))
+                if all(m.get(p.__name__) is not None for p in W.cls.__parameters__) and not fshape:
+                    rmn = drv.ask("MANGLE %s (%s)" % (esc(W.cls.__name__), " ".join(esc(x) for x in nm)))
+                    chk.note("corr:MANGLE")
+                    if parse_sx(rmn)[1] != rh[1].__name__:
+                        corr_fail.append(("MANGLE", dict(case0, op="mangle"), rh[1].__name__, rmn))
 
         # ---------- oracle P: G[args] behaves like the copy
         self_fields = mono
@@ -1341,10 +1446,10 @@ def eval_world(chk, drv, spec, n_payloads, corr_fail, label=None):
         # unstructuring such an instance says nothing (and cannot be localised); those worlds are compared on structure only
         with_un = not any(v == "tag" for lv in spec["levels"] for v in lv.get("conv", {}).values())
         for det in (True, False):
-            fresh_copy = Converter(detailed_validation=det)
+            fresh_copy = W.converter(det)
             for pk, pl in pls:
                 outs = {}
-                for cn, conv in (("shared", shared[det]), ("fresh", Converter(detailed_validation=det))):
+                for cn, conv in (("shared", shared[det]), ("fresh", W.converter(det))):
                     rG = scan.attempt(lambda: conv.structure(pl, tgt), "structure(%r, %s)" % (pl, tgt))
                     oG = obs(rG, W)
                     if rG[0] == "ok" and with_un:
@@ -1407,9 +1512,9 @@ def eval_world(chk, drv, spec, n_payloads, corr_fail, label=None):
                     mixed = [TV(p) if i == keep else a for i, (p, a) in enumerate(zip(lv0["params"], args0))]
                     t_unb = W.target(mixed)
                     tgu = "(alias " + " ".join(ann_sx(a) for a in mixed) + ")"
-                mref = drv.ask("%s %s %s" % ("REFUSESTD" if td else "REFUSES", chain, tgu))
+                mref = drv.ask("%s %s %s" % ("REFUSESTD" if td else "REFUSES", chain, tgu)) if modelled else "1"
                 # the generator alone (both templates): the model refuses iff generating the hook raises
-                for det in (True, False):
+                for det in ((True, False) if modelled else ()):
                     gop = ("STRUCTGENTD" if det else "STRUCTGENTDFAST") if td else "STRUCTGEN"
                     rmg = drv.ask("%s %s %s" % (gop, chain, tgu))
                     rs = attempt(lambda: structure_types_real(t_unb, td, det))
@@ -1424,7 +1529,7 @@ def eval_world(chk, drv, spec, n_payloads, corr_fail, label=None):
                     except Unpayloadable:
                         continue
                     for det in (True, False):
-                        r = scan.attempt(lambda: Converter(detailed_validation=det).structure(pl, t_unb))
+                        r = scan.attempt(lambda: W.converter(det).structure(pl, t_unb))
                         chk.note("unbound:" + unb, "unbound-payload:" + mode, "unbound-result:" + r[0])
                         chk.evaluations += 1
                         if r[0] == "ok":
@@ -1712,6 +1817,31 @@ def systematic_worlds():
                     out.append({"shape": "systematic-mixin", "kind": kind, "style": style, "target": "alias",
                                 "occ": ["mixin-" + pos], "levels": [child, parent],
                                 "argsets": [[LF("float")], [APP("In", LF("int"))]]})
+    # hierarchies in which the class that binds the parameter is not the direct parent:
+    # Node(Generic[T]) <- IntNode(Node[NT]) <- Leaf(IntNode) [<- Leaf2(Leaf)] [<- Tagged(<leaf>, Generic[W])]
+    for kind in ("attrs", "dataclass", "typeddict"):
+        for style in ("generic", "pep695"):
+            for depth in (1, 2):
+                for tagged in (False, True):
+                    node = _lv("Node", ["T"], [("a", TV("T")), ("items", APP("list", TV("T")))])
+                    mid = _lv("IntNode", [], [("b", LF("str"))], [LF("NT")], gb=False)
+                    levels = [mid, node]
+                    for k in range(depth):
+                        levels.insert(0, _lv("Leaf%d" % k, [], [("c%d" % k, LF("int"))], [], gb=False))
+                    if tagged:
+                        levels.insert(0, _lv("Tagged", ["W"], [("tag", OPT(TV("W")))], []))
+                    out.append({"shape": "systematic-deep", "kind": kind, "style": style, "target": "alias" if tagged else "bare",
+                                "occ": ["plain-subclass"] + (["generic-over-plain"] if tagged else []), "levels": levels,
+                                "argsets": [[LF("str")], [LF("NT")]] if tagged else [None]})
+    # PEP 696: the bare class with every parameter defaulted -- `None` is a default like any other
+    for kind in ("attrs", "dataclass", "typeddict"):
+        for dv in (LF("None"), LF("int"), LF("NT"), APP("list", LF("int"))):
+            own = [("a", TV("T")), ("b", APP("list", TV("U"))), ("c", APP("dict", LF("str"), TV("U")))]
+            if kind != "typeddict":   # (a TypedDict key annotated `None` becomes `NoneType`: no hook, in the copy)
+                own.append(("d", TV("U")))
+            out.append({"shape": "systematic-defaults", "kind": kind, "style": "generic", "target": "bare", "occ": ["default:" + json.dumps(dv)],
+                        "levels": [_lv("D", ["T", "U"], own, defaults={"T": LF("str"), "U": dv})],
+                        "argsets": [None]})
     return out
 
 
@@ -1770,6 +1900,10 @@ def run(chk: framework.Check):
         chk.known.append({"id": "F50", "property": "C17", "kind": "finding", "signature": F50_SIG,
                           "what": "unstructuring as a parametrised PEP 695 generic alias ignores the alias' arguments "
                                   "(entry assumed via VERIF_C17_F50)"})
+    if os.environ.get("VERIF_C17_F63") and not any(f.get("signature") == F63_SIG for f in chk.known):
+        chk.known.append({"id": "F63", "property": "C17", "kind": "finding", "signature": F63_SIG,
+                          "what": "a TypedDict that lists its parent unsubscripted loses the parent's binding of a type parameter "
+                                  "(entry assumed via VERIF_C17_F63)"})
     if os.environ.get("VERIF_C17_F51") and not any(f.get("signature") == F51_SIG for f in chk.known):
         chk.known.append({"id": "F51", "property": "C17", "kind": "finding", "signature": F51_SIG,
                           "what": "bare subclass of a pass-through parametrised base: refused only when the payload reaches "
@@ -1816,6 +1950,10 @@ def run(chk: framework.Check):
 
     # every P failure outside the recorded shapes is a violation
     report(chk, all_fails)
+    for f in chk.known:
+        if f.get("signature") == F63_SIG and not chk.known_hits.get(f["id"]):
+            print(f"STALE-FINDING: property=C17 {f['id']} did not reproduce (the TypedDict worlds of the systematic-deep family are its witness)")
+            chk.note("stale-finding:" + f["id"])
 
     # correspondence breaks: the oracle held on these inputs (or they are recorded findings, reported above)
     seen = set()
